@@ -47,6 +47,7 @@ std::string firstDiff(const json &a, const json &b, const std::string &at = "");
 
 // where the handler currently is (reported with a harness exception)
 extern std::string g_phase;
+extern std::string g_h5err;
 
 // silence HDF5's error stack printing
 void quietHdf5();
